@@ -45,6 +45,9 @@ if spec.get("libroot"):
 # --- tracing wrappers (harness side only)
 reads = []
 state = {"meta": 0, "cur": None, "fault": None}
+# health of the instrumentation: the wrappers below hang on internals of logic/basic.py (module attributes looked up at call
+# time); a refactoring may bypass them.  The harness uses the tags only when these counters show that they were hit.
+instr = {"json": 0, "parse": 0, "extend": 0, "tagged": 0}
 
 
 class Injected(Exception):
@@ -61,6 +64,7 @@ _load_json = basic.load_json_data
 def load_json_data(filename, username="master"):
     data = _load_json(filename, username)
     if not state["meta"]:
+        instr["json"] += 1
         reads.append(filename)
         state["cur"] = [filename, 0]
     return data
@@ -86,6 +90,7 @@ _parse_item = items.parse_item
 def parse_item(data):
     cur = state["cur"]
     tag = None
+    instr["parse"] += 1
     if cur is not None:
         tag = (cur[0], cur[1])
         cur[1] += 1
@@ -120,6 +125,9 @@ def unchecked_extend(self, exts):
     tag = getattr(exts, "tag", "?")
     exts = list(exts)
     _unchecked(self, exts)
+    instr["extend"] += 1
+    if isinstance(tag, tuple):
+        instr["tagged"] += 1
     self.__dict__.setdefault("_c12", []).append(tag)
 
 
@@ -178,6 +186,14 @@ def dump_theory(thy):
     }
 
 
+def names_of(thy):
+    """what a user can observe: the names of the types, constants and theorems of the theory"""
+    if thy is None:
+        return None
+    d = thy.data
+    return {"types": sorted(d.get("type_sig", {})), "consts": sorted(d.get("term_sig", {})), "theorems": sorted(d.get("theorems", {}))}
+
+
 def classify(e):
     tb = traceback.extract_tb(e.__traceback__)
     where = [fr.name for fr in tb if fr.filename.endswith(os.path.join("logic", "basic.py"))]
@@ -222,6 +238,7 @@ for op in spec["ops"]:
         # snapshot of theory.thy after every load (outcome is judged op by op)
         t = theory.thy
         rec["thy_items"] = None if t is None else [list(x) if isinstance(x, tuple) else x for x in t.__dict__.get("_c12", [])]
+        rec["names"] = names_of(t)
         d = dump_theory(t)
         rec["digest"] = None if d is None else hashlib.sha1(json.dumps(d, sort_keys=True).encode("utf-8")).hexdigest()
         if spec.get("dump_all"):
@@ -238,4 +255,4 @@ final = {
     "dump": dump_theory(thy),
     "flags": flags,
 }
-sys.stdout.write("\n@@C12@@" + json.dumps({"ops": out_ops, "final": final, "pre": pre}) + "\n")
+sys.stdout.write("\n@@C12@@" + json.dumps({"ops": out_ops, "final": final, "pre": pre, "instr": instr}) + "\n")
